@@ -101,6 +101,13 @@ func AfterFunc(d Duration, f func()) *Timer {
 	tm := newTimer(d, 0, f)
 	return &Timer{tm: tm}
 }
+// AfterFuncGroup is AfterFunc with an explicit owner group (the harness uses it for timers of its own, which
+// must survive the crash of the server whose thread happened to create them).
+func AfterFuncGroup(d Duration, group int, owner string, f func()) *Timer {
+	tm := newTimer(d, 0, f)
+	tm.Group, tm.Owner = group, owner
+	return &Timer{tm: tm}
+}
 func (t *Timer) Stop() bool {
 	was := !t.tm.Fired && !t.tm.Stopped
 	t.tm.Stopped = true
